@@ -319,6 +319,40 @@ Theorem C12_e2e_archive_round_trip_history : forall mc md S p loc a S1 os,
   exists a', read_archive md (typed_run mc md S1 os) p loc = FOk a' /\ same_archive a a'.
 Proof. exact e2e_archive_round_trip_history. Qed.
 
+(* ---- localisation (file-system half of C14) for the typed helpers ---- *)
+(* a localized typed call addresses what the unlocalized call on [localize p] addresses; the codec is chosen by the caller's name (the
+   premise holds for every path dir/name without trailing '/': C14_fs_same_codec) *)
+Theorem C12_e2e_typed_localized_consistent : forall mc md S p p',
+  localize (c_loc (conf S)) (lng S) p = LOk p' ->
+  is_compressed (c_comp (conf S)) p = is_compressed (c_comp (conf S)) p' ->
+  read_file md S p true = read_file md S p' false /\
+  read_archive md S p true = read_archive md S p' false /\
+  read_text_archive md S p true = read_text_archive md S p' false /\
+  read_arc md S p true = read_arc md S p' false /\
+  read_fe9_arc md S p true = read_fe9_arc md S p' false /\
+  (forall k, read_textures md k S p true = read_textures md k S p' false) /\
+  (forall b, write_file mc S p b true = write_file mc S p' b false) /\
+  (forall a, write_archive mc S p a true = write_archive mc S p' a false) /\
+  (forall a, write_text_archive mc S p a true = write_text_archive mc S p' a false).
+Proof. exact typed_localized_consistent. Qed.
+(* a localisation error is returned by every typed reader, and by a typed writer unless its serializer fails first (the code serializes
+   before it localizes); nothing changes *)
+Theorem C12_e2e_typed_localisation_error : forall mc md S p e,
+  localize (c_loc (conf S)) (lng S) p = LErr e ->
+  read_file md S p true = FErr (ELocalization e) /\
+  read_archive md S p true = FErr (ELocalization e) /\
+  read_text_archive md S p true = FErr (ELocalization e) /\
+  read_arc md S p true = FErr (ELocalization e) /\
+  read_fe9_arc md S p true = FErr (ELocalization e) /\
+  (forall k, read_textures md k S p true = FErr (ELocalization e)) /\
+  (forall b, write_file mc S p b true = (S, FErr (ELocalization e))) /\
+  (forall a f, BinFormat.serialize mc a = Ok f -> write_archive mc S p a true = (S, FErr (ELocalization e))) /\
+  (forall a f, TextFormat.serialize mc (ta_fmt a) (ta_endian a) (ta_map a) = Ok f ->
+     write_text_archive mc S p a true = (S, FErr (ELocalization e))) /\
+  (forall a S' r, write_archive mc S p a true = (S', r) -> S' = S) /\
+  (forall a S' r, write_text_archive mc S p a true = (S', r) -> S' = S).
+Proof. exact typed_localisation_error. Qed.
+
 (* ---- non-vacuity of the end-to-end statements (all by computation on the instantiated model) ---- *)
 Example C12_e2e_example_archive_hyp :
   fs_new [[]] EnglishNA FE10 = FOk ex_fe10 /\ BinSerializeConforms.wf_archive BinSerializeConforms.ex_archive /\
